@@ -6,8 +6,11 @@ package xmpp
 // They add no behaviour: each one forwards to unexported code of this package.
 
 import (
+	"encoding/xml"
+	"io"
 	"time"
 
+	"golang.org/x/xerrors"
 	"gosrc.io/xmpp/stanza"
 )
 
@@ -64,3 +67,26 @@ func VerifEventState(e Event) ConnState { return e.State.state }
 
 // VerifClientState returns the client's current connection state.
 func VerifClientState(c *Client) ConnState { return c.CurrentState.getState() }
+
+// VerifAuthSASL exposes authSASL (mechanism choice + authPlain).
+func VerifAuthSASL(rw io.ReadWriter, dec *xml.Decoder, f stanza.StreamFeatures, user string, cred Credential) error {
+	return authSASL(rw, dec, f, user, cred)
+}
+
+// VerifIsPermanent reports whether err is (or wraps) a ConnError with Permanent set, the way StreamManager decides.
+func VerifIsPermanent(err error) bool {
+	var ce ConnError
+	return xerrors.As(err, &ce) && ce.Permanent
+}
+
+// VerifIsConnError reports whether err is (or wraps) a ConnError.
+func VerifIsConnError(err error) bool {
+	var ce ConnError
+	return xerrors.As(err, &ce)
+}
+
+// VerifComponentHandshake exposes Component.handshake (the digest sent in <handshake/>).
+func VerifComponentHandshake(c *Component, streamId string) string { return c.handshake(streamId) }
+
+// VerifComponentTransport returns the component's current transport.
+func VerifComponentTransport(c *Component) Transport { return c.transport }
